@@ -80,6 +80,7 @@ FINDING = {
   'param-image-type-dependent': 'param-str-image-collision',
   'non-identifier-params': 'illegal-module-name',
   'object-repr-param': 'param-repr-address',
+  'explicit-name-different-parameters': 'explicit-module-name-shared',
 }
 
 # ----------------------------------------------------------------------------- protocol helpers
@@ -187,6 +188,8 @@ def identity(m):
   def image(v):
     if isinstance(v, type): return py_struct_name(v) if is_bitstruct_class(v) else v.__name__
     return str(v)
+  EK = c13_worker.backend_pass('sv').explicit_module_name
+  if m.has_metadata(EK) and m.get_metadata(EK): return ('explicit_module_name', m.get_metadata(EK))   # the user chose the name
   return (type(m).__name__, tuple((k, image(v)) for k, v in params_of(m)))
 
 def type_width(T):
@@ -213,6 +216,7 @@ def mangle(m):
 def code_of(text, owner_path):
   """module text without comment / blank lines and with the instance path removed from lambda block labels"""
   code = [l.rstrip() for l in text.split('\n') if l.strip() and not l.lstrip().startswith('//')]
+  if code and code[0].startswith('module '): code[0] = 'module'      # the name is checked at the instantiation site
   return '\n'.join(code).replace('_lambda__' + owner_path + '_', '_lambda__s_')
 
 def standalone_key(m):
@@ -308,9 +312,12 @@ def refused_design(ck, d, backend, case, exc):
   translateChecked must refuse exactly when the translator does."""
   mod = importlib.import_module(d['module'])
   top = mod.make_top(); top.elaborate()
+  if hasattr(mod, 'pre_translate'): mod.pre_translate(top, backend)
   comps = all_components(top)
   reps = ask_hashed(ck, [lambda h, m=m: leanio.line('names', 'uniq', h, S(type(m).__name__), [[S(k), pval_of(v)] for k, v in params_of(m)]) for m in comps])
-  name = {m: unS(r[UNIQ]) for m, r in zip(comps, reps)}
+  EK = c13_worker.backend_pass('sv').explicit_module_name
+  # the name a module is emitted under: the explicit name the user gave, else the model's unique name
+  name = {m: ((m.get_metadata(EK) if m.has_metadata(EK) else '') or unS(r[UNIQ])) for m, r in zip(comps, reps)}
   stand = {m: (f'<<top {d["uid"]}>>' if m is top else standalone(ck, m, backend)) for m in comps}
   ident = {m: identity(m) for m in comps}
   ids = {}
@@ -394,7 +401,7 @@ def check_design(ck, d, texts_by_run):
     wf_bad = c13_scan.direct_wf(tab, ck.reserved)
     for kind, detail in wf_bad[:3]:
       ck.violation('illegal-identifier' if kind.startswith('illegal') else kind,
-                   {'finding': 'illegal-module-name' if kind == 'illegal-module-name' else kind},
+                   {'finding': 'illegal-module-name' if kind == 'illegal-module-name' else (finding or kind)},
                    case, {'what': kind, 'where': detail, 'oracle': 'identifiers match [A-Za-z_][A-Za-z0-9_$]*, are not reserved, are unique '
                           'per module; modules are defined once; instantiated modules are defined'})
     ck.model_reqs.append((lambda h, tab=tab: leanio.line('names', 'wf', [S(x) for x in tab['typedefs']],
@@ -411,6 +418,9 @@ def check_design(ck, d, texts_by_run):
     tr, bodies = instance_bodies(top, P)
     comps = all_components(top)
     real_name = {m: tr.structural.component_unique_name[m] for m in comps}
+    # the name a component is EMITTED under: its explicit_module_name (read from the instance's metadata), else its unique name
+    EK = c13_worker.backend_pass('sv').explicit_module_name
+    ename = {m: ((m.get_metadata(EK) if m.has_metadata(EK) else '') or real_name[m]) for m in comps}
     body_id, stand_id = {}, {}
     def bid(table, text_):
       return table.setdefault(text_, len(table))
@@ -429,7 +439,7 @@ def check_design(ck, d, texts_by_run):
                              tr.structural.component_full_name[m])))
     # ---- aliasing (direct oracle): same emitted name => identical standalone translation
     by_name = {}
-    for m in sorted(comps, key=repr): by_name.setdefault(real_name[m], []).append(m)
+    for m in sorted(comps, key=repr): by_name.setdefault(ename[m], []).append(m)
     shared = {n: ms for n, ms in by_name.items() if len(ms) > 1}
     alias_pairs = []
     for n, ms in shared.items():
@@ -449,17 +459,19 @@ def check_design(ck, d, texts_by_run):
     comp_order = list(tr.hierarchy.components.keys())
     winners = [body_id.get(tr.hierarchy.components[n], -1) for n in comp_order]
     text_order = [m['name'] for m in tab['modules']]
-    ck.model_reqs.append((lambda h, t=tree(top, ids_body): leanio.line('names', 'walk', t),
-                          ('walk-body', case, comp_order, winners, text_order)))
-    aliased_real = sorted((real_name[m], ids_stand[m]) for m in comps if stand[m] != stand[by_name[real_name[m]][0]])
+    walk = d.get('walk', True)        # False: modules are emitted under explicit names, the table model is keyed by unique names
+    if walk:
+      ck.model_reqs.append((lambda h, t=tree(top, ids_body): leanio.line('names', 'walk', t),
+                            ('walk-body', case, comp_order, winners, text_order)))
     # by_name is in repr order = the order of the walk only for siblings; the model decides which instance is first:
-    ck.model_reqs.append((lambda h, t=tree(top, ids_stand): leanio.line('names', 'walk', t),
-                          ('walk-standalone', case, bool(alias_pairs), None, None)))
+    if walk:
+      ck.model_reqs.append((lambda h, t=tree(top, ids_stand): leanio.line('names', 'walk', t),
+                            ('walk-standalone', case, bool(alias_pairs), None, None)))
     # ---- skeleton of every emitted module: the instance whose body was emitted
     first_of = {}
     for m in comps:
       n = real_name[m]
-      if n in tr.hierarchy.components and bodies[m] == tr.hierarchy.components[n] and n not in first_of: first_of[n] = m
+      if n in tr.hierarchy.components and bodies[m] == tr.hierarchy.components[n] and ename[m] not in first_of: first_of[ename[m]] = m
     scanned = {mm['name']: mm for mm in tab['modules']}
     # ---- every instance is instantiated as a module that IS that instance (direct oracle):
     #      the module named at the instantiation site has the instance's ports (names, widths, dims; SV) and its code is
@@ -467,7 +479,7 @@ def check_design(ck, d, texts_by_run):
     owner_path = {n: mangle(m) for n, m in first_of.items()}
     n_bad = 0
     for p in comps:
-      pm = scanned.get(real_name[p])
+      pm = scanned.get(ename[p])
       if pm is None: continue
       site = dict((i, mod_) for mod_, i in pm['insts'])
       for k, insts, dims in members(p)[2]:
@@ -499,7 +511,7 @@ def check_design(ck, d, texts_by_run):
                               effective_parameters=[[k2, type(v).__name__, str(v)] for k2, v in params_of(c)],
                               oracle='the module instantiated for an instance must be the translation of that very instance'))
     for n, m in first_of.items():
-      if n not in scanned: continue
+      if n not in scanned or not walk: continue
       ports, ifcs, kids = members(m)
       ff = m.get_update_ff()
       comb = [b.__name__ for b in m.get_update_blocks() if b not in ff]
